@@ -92,7 +92,7 @@ def build(rc) -> Built:
         k = 0
         if how is not True:
             # the bound is computed from the run-time argument: %arg + %c<k>
-            if how[0] != "add" or not (0 <= how[1] < NCONST) or how[1] > rc[which]:
+            if how[0] != "add" or not (0 <= how[1] < NCONST):
                 raise BadRecipe("computed run-time bound")
             k = how[1]
             feats.add("bound computed from a run-time argument")
@@ -388,30 +388,34 @@ def build(rc) -> Built:
 
 # ------------------------------------------------------------------------------------ strategies
 
-LBSTEP = [(0, 1)] * 10 + [(0, 2), (0, 3), (0, 2), (1, 1), (2, 1), (3, 2)]
+LBSTEP = [(0, 1)] * 10 + [(0, 2), (0, 3), (0, 2), (1, 1), (2, 1), (3, 2), (-1, 1), (-2, 1), (-3, 2)]
 
 
 @st.composite
 def bounds(draw, S, max_trip=6, dyn=()):
+    # a run-time lb >= ub, mostly with an ub that alone looks pipelinable (>= stages-1)
+    zero = "lb" in dyn and draw(st.integers(0, 4)) == 0
     if "lb" in dyn or "step" in dyn:
         # run-time values that make a difference (lb != 0, step != 1); the bounds that stay constant are mostly the
         # canonical ones, so that only the run-time bound keeps the loop from being pipelinable
-        lb = draw(st.sampled_from([1, 2, 3, 0, 1, 2, 5] if "lb" in dyn else [0, 0, 0, 1]))
+        lb = draw(st.sampled_from([5, 3, 5, 2, 1] if zero else [1, 2, 3, 0, 1, 2, 5, -1, -2] if "lb" in dyn else [0, 0, 0, 1, -1]))
         step = draw(st.sampled_from([2, 3, 1, 2] if "step" in dyn else [1, 1, 1, 2]))
     else:
         lb, step = draw(st.sampled_from(LBSTEP))
+    if lb < 0 and draw(st.integers(0, 2)) > 0:
+        # a negative lower bound with an upper bound that alone looks pipelinable (ub >= stages-1): i = lb .. -1, 0 .. ub-1
+        return lb, draw(st.integers(S - 1, max(S - 1, max_trip - 2))), step
     # bulk: trip counts >= S-1 (the range the passes are written for); below S-1 is the documented-defect range
     trip = draw(st.one_of(st.integers(S - 1, max_trip), st.integers(S - 1, max_trip), st.integers(S - 1, max_trip),
                           st.integers(0, max_trip), st.sampled_from([S - 1, S, S + 1])))
-    if "lb" in dyn and draw(st.integers(0, 4)) == 0:
-        trip = 0  # run-time lb >= ub
+    if zero:
+        trip = 0
     if trip == 0:
         ub = lb - draw(st.integers(0, 2 if "lb" in dyn else 1))
     else:
         # ub not a multiple of step also occurs (same trip count)
         ub = lb + (trip - 1) * step + 1 + draw(st.integers(0, step - 1))
-    if ub < 0:
-        ub = 0
+    # (a negative ub occurs: zero-trip loops from lb <= 1, and short loops from a negative lb)
     return lb, ub, step
 
 
@@ -432,7 +436,7 @@ def loop_recipe(draw, tier="quick"):
     S = draw(st.sampled_from([3, 2, 4, 3]))
     # run-time bounds (index function arguments, or argument + constant): every combination
     dyn = []
-    if draw(st.integers(0, 9)) >= 7:
+    if draw(st.integers(0, 3)) == 3:
         dyn = draw(st.sampled_from([["lb"], ["lb"], ["ub"], ["step"], ["lb", "ub"], ["lb", "step"], ["ub", "step"],
                                     ["lb", "ub", "step"]]))
     lb, ub, step = draw(bounds(S, 6 if tier == "quick" else 8, dyn))
@@ -443,11 +447,18 @@ def loop_recipe(draw, tier="quick"):
     # index arithmetic: a few expressions of %i
     n_idx = draw(st.integers(0, 3))
     idx = []
+    base = 0  # pool position of the value tiles are addressed by
+    if lb < 0:
+        # negative induction values: tiles are addressed by %i + %c<-lb> >= 0 (a negative row is outside every buffer)
+        idx.append(["addi", 0, 1 - lb])
+        base = 1 + NCONST
     for _ in range(n_idx):
         op = draw(st.sampled_from(IDX_OPS))
-        x = draw(st.sampled_from([0, 0, 0, 6, 7, 8]))  # mostly %i or an earlier result
+        # mostly %i (the shifted %i when lb < 0) or an earlier result
+        x = draw(st.sampled_from([base] * 3 + ([6, 7, 8] if base == 0 else list(range(base, base + len(idx))))))
         y = draw(st.integers(1, 4)) if op != "subi" else draw(st.sampled_from([1, 1, 2]))
         idx.append([op, x, y])
+    n_idx = len(idx)
     npool = 1 + NCONST + n_idx
     # L1: chain buffers b0..b(S-2) of r rows, optional extra whole buffers and a tiled buffer
     l1 = [r] * (S - 1)
@@ -460,7 +471,7 @@ def loop_recipe(draw, tier="quick"):
 
     def iref():
         # reference to %i-dependent values first; constants sometimes
-        return draw(st.sampled_from([0, 0, 0] + list(range(1 + NCONST, npool)) * 2 + [1, 2, 3]))
+        return draw(st.sampled_from([base, base, base] + list(range(1 + NCONST, npool)) * 2 + [1, 2, 3]))
 
     # view 0 / 1: the default source / sink tiles G0[f(i)], G1[g(i)]; further tiles of any global or of the tiled L1 buffer
     views = []
@@ -469,7 +480,7 @@ def loop_recipe(draw, tier="quick"):
         if n >= 2 and tiled is not None and rare(2):
             views.append(["B", tiled, iref(), r])
         elif n < 2:
-            views.append(["G", n, draw(st.sampled_from([0, 0, 0, 0] + list(range(1 + NCONST, npool)))), r])
+            views.append(["G", n, draw(st.sampled_from([base] * 4 + list(range(1 + NCONST, npool)))), r])
         else:
             # mostly the third global (independent of source and sink), sometimes aliasing them
             views.append(["G", draw(st.sampled_from([2, 2, 2, 0, 1])), iref(), r])
@@ -545,9 +556,8 @@ def loop_recipe(draw, tier="quick"):
     rc = dict(S=S, lb=lb, ub=ub, step=step, ub_dyn=False, canon=canon, nG=nG, args=args, l1=l1, idx=idx, views=views,
               stages=stages, post=post)
     for w in dyn:
-        v = rc[w]
-        # mostly the argument itself, sometimes a value computed from it (argument + %c<k>)
-        rc[w + "_dyn"] = True if not rare(3) else ["add", draw(st.integers(0, max(0, min(v, NCONST - 1))))]
+        # mostly the argument itself, sometimes a value computed from it (argument + %c<k>; the argument may be negative)
+        rc[w + "_dyn"] = True if not rare(3) else ["add", draw(st.integers(0, NCONST - 1))]
     if draw(st.integers(0, 4)) >= 2:
         _share_bounds(draw, rc, r)
     return rc
@@ -565,26 +575,30 @@ def _share_bounds(draw, rc, r):
         return draw(st.sampled_from(["lb", "lb", "lb", "ub", "step"]))
 
     def cref():
-        return which() if not rare(3) else draw(st.integers(0, NCONST - 1))
+        # a value used as the row of a tile outside the loop / the start of the second loop: not a negative one
+        w = which() if not rare(3) else draw(st.integers(0, NCONST - 1))
+        return draw(st.integers(0, NCONST - 1)) if isinstance(w, str) and rc[w] < 0 else w
 
     cse = [w for w in ("lb", "ub", "step") if draw(st.integers(0, 3)) >= (1 if w == "lb" else 2)]
     if cse:
         rc["cse"] = cse
-    lb = rc["lb"]
+    # with a negative lb, idx[0] is the shift %i + %c<-lb> that tiles are addressed by: it stays as it is
+    shift = 1 if rc["lb"] < 0 else 0
+    base = 1 + NCONST if shift else 0
     # (a) users in the loop body
     for _ in range(draw(st.integers(0, 2))):
         w = which()
         # the pool position of the constant of that value (shared iff "cse"), or the bound's SSA value itself
         ref = 1 + rc[w] if (w in cse and 0 <= rc[w] < NCONST and not rc.get(w + "_dyn")) else w
         k = draw(st.integers(0, 3))
-        if k == 0 and rc["idx"]:
-            e = draw(st.sampled_from(rc["idx"]))
+        if k == 0 and rc["idx"][shift:]:
+            e = draw(st.sampled_from(rc["idx"][shift:]))
             if e[0] not in ("remui", "divui"):
                 e[2] = ref
         elif k == 1:
             # the row of a tile (not of the default source / sink tiles, whose rows should depend on %i)
             cand = [v for v in rc["views"][2:] if v[0] == "G"]
-            if cand:
+            if cand and rc[w] >= 0:
                 draw(st.sampled_from(cand))[2] = ref
         elif k == 2:
             gens = [op for ops in rc["stages"] for op in ops if op[0] == "gen" and not any(o[0] == "x" for o in op[1])]
@@ -592,7 +606,7 @@ def _share_bounds(draw, rc, r):
                 draw(st.sampled_from(gens))[1].append(["x", ref])
         else:
             # a new index computation %i (+|-|*) bound, used as the row of a tile when there is a free one
-            rc["idx"].append([draw(st.sampled_from(["addi", "addi", "subi", "muli"])), 0, ref])
+            rc["idx"].append([draw(st.sampled_from(["addi", "addi", "subi", "muli"])), base, ref])
             cand = [v for v in rc["views"][2:] if v[0] == "G"]
             if cand and not rare(2):
                 draw(st.sampled_from(cand))[2] = NCONST + len(rc["idx"])
@@ -610,7 +624,7 @@ def _share_bounds(draw, rc, r):
             src = ["pv", draw(st.integers(0, 1))]
         rc["post"] = rc["post"] + [["copy", src, dst] if not rare(3) else ["gen", [src], [dst], False]]
     if rare(2):
-        rc["loop2"] = dict(lb=cref() if not rare(2) else "lb", ub=draw(st.sampled_from(["ub", "ub", 2, 3, 4])),
+        rc["loop2"] = dict(lb=cref() if not rare(2) or rc["lb"] < 0 else "lb", ub=draw(st.sampled_from(["ub", "ub", 2, 3, 4])),
                            step=draw(st.sampled_from(["step", "step", 1, 2])), src=draw(st.sampled_from(outer)),
                            dst=draw(st.sampled_from(outer)), off=None if not rare(2) else cref())
 
